@@ -1078,6 +1078,8 @@ def convert_avg_pool_to_conv2d(op: Operation, arch, nng) -> Operation:
         ),
     )
     op.weights.values = np.reshape(op.inputs[1].values, shape)
+    # An int32 bias selects full precision scaling also for an int16 IFM (see fixup_bias_tensors)
+    fixup_bias_tensors(op, arch, nng, DataType.int32)
 
     # Set IFM/OFM shapes after changing op type
     # (the shapes of the op can differ from those of its tensors (a bypassed reshape), keep them)
